@@ -235,7 +235,14 @@ fn check_arith(op: &str, a: &N, b: &N, literal: bool, stage: &str, out: &mut Wor
     } else {
         (format!("a {} b", op), vec![("a".to_string(), Value::Number(a.decimal())), ("b".to_string(), Value::Number(b.decimal()))])
     };
-    let case = format!("{}|{} {} {}{}", stage, a.text(), op, b.text(), if literal { " (literal)" } else { "" });
+    // a negative right operand also written tight against the operator (`10%-3`): the sign
+    // belongs to the operand, whatever the operator (`--` is an operator of its own)
+    let mut programs = vec![(program, "")];
+    if literal && !setter && b.neg && op != "-" {
+        programs.push((format!("{}{}{}-{}", if a.neg { format!("(- {})", render(false, a.mant, a.scale)) } else { a.text() }, if op.starts_with("not") { " " } else { "" }, op, render(false, b.mant, b.scale)), " tight"));
+    }
+    for (program, how) in programs {
+    let case = format!("{}|{} {} {}{}{}", stage, a.text(), op, b.text(), if literal { " (literal)" } else { "" }, how);
     let key = format!("{}:{}:{}", op, a.class(), b.class());
     out.evals += 1;
     let got = engine_exec(&program, &bindings);
@@ -275,6 +282,7 @@ fn check_arith(op: &str, a: &N, b: &N, literal: bool, stage: &str, out: &mut Wor
             },
         },
     }
+}
 }
 
 trait ShowRes {
